@@ -26,6 +26,33 @@ func genUpdateMisc(g *vlib.G) {
 				}
 			}
 			for _, f := range []float64{2, 0.5, 3} {
+				_ = f
+			}
+		}
+		// ExtendVecSym and boundary downdates on matrices whose factors are exact (identity, diagonal of
+		// perfect squares / powers of four) and on a generic SPD matrix
+		for _, fam := range []string{"ident", "sqdiag", "pow4diag", "spd"} {
+			for j := 0; j < n; j++ {
+				for _, kind := range []string{"dup", "dup+1", "dup-1", "dup+tiny"} {
+					for _, vrep := range []string{"vec", "vecinc", "uservec"} {
+						for _, recv := range []string{"same", "empty", "other-same-size"} {
+							n, fam, j, kind, vrep, recv := n, fam, j, kind, vrep, recv
+							g.Case(fmt.Sprintf("ExtendVecSym n=%d fam=%s col=%d v=%s rep=%s recv=%s", n, fam, j, kind, vrep, recv), func(t *vlib.T) {
+								extendCase(t, n, fam, j, kind, vrep, recv)
+							})
+						}
+					}
+				}
+				for _, recv := range []string{"same", "empty", "other-same-size"} {
+					n, fam, j, recv := n, fam, j, recv
+					g.Case(fmt.Sprintf("SymRankOne-boundary n=%d fam=%s col=%d recv=%s", n, fam, j, recv), func(t *vlib.T) {
+						boundaryDowndateCase(t, n, fam, j, recv)
+					})
+				}
+			}
+		}
+		for _, fam := range []string{"spd", "spd-dd"} {
+			for _, f := range []float64{2, 0.5, 3} {
 				for _, recv := range []string{"same", "empty", "reset", "other-same-size"} {
 					n, fam, f, recv := n, fam, f, recv
 					g.Case(fmt.Sprintf("Scale n=%d fam=%s f=%g recv=%s", n, fam, f, recv), func(t *vlib.T) {
@@ -193,4 +220,172 @@ func scaleCase(t *vlib.T, n int, fam string, f float64, recvKind string) {
 	checkCholAgainst(t, "Scale", recv, scaleM(f, A), false)
 	mustPanic(t, "Scale by 0", func() { new(mat.Cholesky).Scale(0, orig) })
 	mustPanic(t, "Scale by -1", func() { new(mat.Cholesky).Scale(-1, orig) })
+}
+
+// exactFam returns a matrix of a family whose Cholesky factor is exactly
+// representable and computed without rounding (exact == true), or a generic SPD matrix.
+func exactFam(fam string, n int) (A *M, exact bool) {
+	switch fam {
+	case "ident":
+		return eyeM(n), true
+	case "sqdiag":
+		A = newM(n, n)
+		for i := 0; i < n; i++ {
+			A.set(i, i, float64((i+2)*(i+2)))
+		}
+		return A, true
+	case "pow4diag":
+		A = newM(n, n)
+		for i := 0; i < n; i++ {
+			A.set(i, i, math.Ldexp(1, 2*(i%3+1)))
+		}
+		return A, true
+	}
+	return symMat(fam, n, 0), false
+}
+
+// extendCase: v = (A[:,j], A[j,j] + delta): delta = 0 makes the extended matrix exactly
+// singular (two equal rows), delta > 0 positive definite, delta < 0 indefinite.
+func extendCase(t *vlib.T, n int, fam string, j int, kind, vrep, recvKind string) {
+	A, exact := exactFam(fam, n)
+	orig := cholOf(t, A)
+	recv := makeRecv(t, recvKind, orig, n)
+	delta := map[string]float64{"dup": 0, "dup+1": 1, "dup-1": -1, "dup+tiny": math.Ldexp(1, -20)}[kind]
+	v := append(A.col(j), A.at(j, j)+delta)
+	t.Nontrivial()
+	var before *M
+	var condBefore float64
+	if recvKind != "empty" {
+		var u mat.TriDense
+		recv.UTo(&u)
+		before, condBefore = fromMat(&u), recv.Cond()
+	}
+	var ok bool
+	if msg := recoverMsg(func() { ok = recv.ExtendVecSym(orig, repVec(vrep, v)) }); msg != "" {
+		t.Failf("ExtendVecSym panicked: %s", msg)
+		return
+	}
+	unchanged := func() {
+		// "ExtendVecSym will return false and the receiver will not be updated"
+		if recvKind == "empty" {
+			if !recv.IsEmpty() {
+				t.Failf("rejected ExtendVecSym left an empty receiver non-empty")
+			}
+			return
+		}
+		var u mat.TriDense
+		recv.UTo(&u)
+		if maxAbs(subM(fromMat(&u), before)) != 0 || recv.Cond() != condBefore {
+			t.Failf("rejected ExtendVecSym changed the receiver (%s)", recvKind)
+		}
+	}
+	switch {
+	case delta == 0:
+		switch {
+		case !ok:
+			t.Outcome("singular-rejected")
+			unchanged()
+		case exact:
+			// k == wᵀA⁻¹w holds in floating point too: documented to return false
+			t.Failf("ExtendVecSym(%v) of %s: the extended matrix is exactly singular (k = wᵀA⁻¹w) but true was returned (%s)", v, fmtM(A), badDiag(recv))
+		default:
+			t.Outcome("singular-accepted-by-rounding")
+			if bad := badDiag(recv); bad != "" {
+				t.Failf("ExtendVecSym(%v) of %s is exactly singular but returned true with %s", v, fmtM(A), bad)
+			}
+		}
+	case delta < 0:
+		t.Outcome("indefinite-rejected")
+		if ok {
+			t.Failf("ExtendVecSym(%v) of %s returned true for an indefinite extension", v, fmtM(A))
+			return
+		}
+		unchanged()
+	default:
+		t.Outcome("applied")
+		if !ok {
+			t.Failf("ExtendVecSym(%v) of %s returned false for a positive definite extension", v, fmtM(A))
+			return
+		}
+		ext := newM(n+1, n+1)
+		for i := 0; i < n; i++ {
+			for k := 0; k < n; k++ {
+				ext.set(i, k, A.at(i, k))
+			}
+			ext.set(i, n, v[i])
+			ext.set(n, i, v[i])
+		}
+		ext.set(n, n, v[n])
+		if delta >= 1 {
+			checkCholAgainst(t, "ExtendVecSym", recv, ext, false)
+		} else {
+			// nearly singular (Schur complement 2^-20): reconstruction only
+			var U mat.TriDense
+			recv.UTo(&U)
+			Um := fromMat(&U)
+			if r := maxAbs(subM(mulM(Um.T(), Um), ext)) / (float64(n+1) * eps * float64(n+1) * maxAbs(ext)); r > tolResid || math.IsNaN(r) {
+				t.Failf("ExtendVecSym: reconstruction ratio %.3g", r)
+			}
+			if bad := badDiag(recv); bad != "" {
+				t.Failf("ExtendVecSym: %s", bad)
+			}
+		}
+	}
+}
+
+// boundaryDowndateCase: A - a_j a_jᵀ/a_jj has a zero j-th row and column:
+// 1 + alpha xᵀA⁻¹x == 0 exactly, so the downdate must be rejected.
+func boundaryDowndateCase(t *vlib.T, n int, fam string, j int, recvKind string) {
+	A, exact := exactFam(fam, n)
+	if fam == "sqdiag" {
+		exact = false // alpha = -1/9 ... is not representable
+	}
+	orig := cholOf(t, A)
+	recv := makeRecv(t, recvKind, orig, n)
+	x := A.col(j)
+	alpha := -1 / A.at(j, j)
+	t.Nontrivial()
+	var before *M
+	var condBefore float64
+	if recvKind != "empty" {
+		var u mat.TriDense
+		recv.UTo(&u)
+		before, condBefore = fromMat(&u), recv.Cond()
+	}
+	var ok bool
+	if msg := recoverMsg(func() { ok = recv.SymRankOne(orig, alpha, mat.NewVecDense(n, x)) }); msg != "" {
+		t.Failf("SymRankOne panicked: %s", msg)
+		return
+	}
+	if ok {
+		if exact {
+			t.Failf("SymRankOne(%g, %v) on %s gives an exactly singular matrix (1 + alpha xᵀA⁻¹x = 0) but returned true (%s)", alpha, x, fmtM(A), badDiag(recv))
+			return
+		}
+		t.Outcome("singular-accepted-by-rounding")
+		if bad := badDiag(recv); bad != "" {
+			t.Failf("SymRankOne(%g, %v) on %s is exactly singular but returned true with %s", alpha, x, fmtM(A), bad)
+		}
+		return
+	}
+	t.Outcome("singular-rejected")
+	// "If the update fails the receiver is left unchanged."
+	switch recvKind {
+	case "same":
+		var u mat.TriDense
+		recv.UTo(&u)
+		if maxAbs(subM(fromMat(&u), before)) != 0 || recv.Cond() != condBefore {
+			t.Failf("rejected SymRankOne changed the receiver (in place)")
+		}
+	case "other-same-size":
+		var u mat.TriDense
+		recv.UTo(&u)
+		if maxAbs(subM(fromMat(&u), before)) != 0 || recv.Cond() != condBefore {
+			finding(t, "failed-update", "cholesky-failed-update-fills-receiver", "rejected SymRankOne changed the receiver (other factorization of the same size)")
+		}
+	default:
+		if !recv.IsEmpty() {
+			finding(t, "failed-update", "cholesky-failed-update-fills-receiver", "rejected SymRankOne into an empty receiver left it non-empty")
+		}
+	}
 }
